@@ -40,8 +40,8 @@ def explore_template(t: Template, tier: str, seed: int):
     from symx import Engine, ModelGap, PathAbort, SymBool, set_engine
 
     t0 = time.time()
-    budget = t.budget_s if t.budget_s is not None else (90 if tier == "quick" else 900)
-    timeout_ms = t.timeout_ms or (10000 if tier == "quick" else 60000)
+    budget = t.budget_s if t.budget_s is not None else (600 if tier == "quick" else 3600)
+    timeout_ms = t.timeout_ms or (30000 if tier == "quick" else 90000)
     e = Engine(timeout_ms=timeout_ms, seed=seed, max_paths=t.max_paths, budget_s=budget)
     set_engine(e)
     holder = {}
@@ -56,11 +56,18 @@ def explore_template(t: Template, tier: str, seed: int):
     paths = e.explore(sym)
     res = dict(tid=t.tid, paths=len(paths), ret_paths=0, gaps=Counter(), harness_errors=[], mismatches=[], obligations=0,
                discharged=0, trivial=0, inconclusive=0, cex=[], replayed_ok=0, exhausted=bool(e.exhausted), samples=[],
-               twin_refuted=None, labels=Counter(), kinds=Counter())
+               twin_refuted=None, labels=Counter(), kinds=Counter(), gap_probes=0, gap_probe_cex=0)
     twin_seen = False
     for p in paths:
         if p.kind == "gap":
             res["gaps"][str(p.value)[:100]] += 1
+            # A path that leaves the environment model is not covered by the solver claim.  It is not ignored either: the
+            # solver is asked for several diverse inputs that reach the point where the model ends, and the same template is
+            # run on them concretely on the real pandas/polars; a labelled assertion that is false there is a genuine
+            # counterexample (solver-produced input, replayed on the real code).  Holding there proves nothing and is
+            # not counted as discharged.
+            if t.replay and res["gap_probes"] < (600 if tier == "quick" else 4000):
+                _probe_gap_path(e, H, t, p, holder.get("v"), res, 4 if tier == "quick" else 12)
             continue
         if p.kind == "exc":
             res["harness_errors"].append("template raised " + "".join(traceback.format_exception_only(type(p.value), p.value)).strip()[:300])
@@ -203,6 +210,50 @@ def explore_template(t: Template, tier: str, seed: int):
     return res
 
 
+def _probe_gap_path(e, H, t, p, v, res, k):
+    """up to k diverse models of the path prefix that ends in a model gap -> concrete runs of the template"""
+    import z3
+
+    from symx import ModelGap, PathAbort
+
+    if v is None:
+        return
+    decls = dict(v.vars)
+    for c in _path_consts(p.pc):
+        decls.setdefault(c.decl().name(), c)
+    discrete = [d for d in decls.values() if z3.is_bool(d)] + [d for n, d in decls.items() if z3.is_int(d) and not n[-1:].isdigit()]
+    s = e.solver
+    s.push()
+    try:
+        for a in e.assumptions:
+            s.add(a)
+        s.add(*p.pc)
+        for _ in range(k):
+            if e.check() != "sat":
+                break
+            m = s.model()
+            vals = H.vals_from_model(m, decls)
+            res["gap_probes"] += 1
+            try:
+                cr = t.fn(H.V(None, vals), *t.args)
+            except (ModelGap, PathAbort):
+                cr = None
+            except Exception:  # noqa: BLE001 - the template itself failed on the real side: not a statement about the property
+                cr = None
+            if cr is not None:
+                for label, val in cr.get("asserts", []):
+                    if not bool(val) and sum(1 for c in res["cex"] if c["label"] == label) < MAX_CEX_PER_LABEL:
+                        res["gap_probe_cex"] += 1
+                        res["cex"].append(dict(tid=t.tid, label=label, vals=H.jsonable(vals), facts=H.jsonable(cr.get("facts", {})), confirmed=True,
+                                               detail="input solved for a path that leaves the environment model (" + str(p.value)[:80] + "); assertion evaluated on the real code",
+                                               args=H.jsonable(list(t.args))))
+            if not discrete:
+                break
+            s.add(z3.Or(*[d != m.eval(d, model_completion=True) for d in discrete]))
+    finally:
+        s.pop()
+
+
 def _path_consts(pc):
     import z3
 
@@ -234,7 +285,7 @@ def _worker(modname, tid, tier, seed, conn):
 # ------------------------------------------------------------------------------------------------ scheduler
 def run_templates(modname, tids, tier, seed, jobs=None, hard_timeout=None):
     jobs = jobs or int(os.environ.get("PVERIF_JOBS", "0")) or min(16, os.cpu_count() or 4)
-    hard_timeout = hard_timeout or (240 if tier == "quick" else 2400)
+    hard_timeout = hard_timeout or int(os.environ.get("PVERIF_HARD_TIMEOUT", "0")) or (1500 if tier == "quick" else 7200)
     ctx = mp.get_context("fork")
     pending, running, results = list(tids), {}, {}
     while pending or running:
@@ -321,7 +372,7 @@ def finish(pid, tier, seed, mod, results, t0, extra_cov=None):
         if "fatal" in r:
             fatal.append((r["tid"], r["fatal"]))
             continue
-        for k in ("paths", "ret_paths", "obligations", "discharged", "trivial", "inconclusive", "replayed_ok", "queries", "decisions"):
+        for k in ("paths", "ret_paths", "obligations", "discharged", "trivial", "inconclusive", "replayed_ok", "queries", "decisions", "gap_probes", "gap_probe_cex"):
             agg[k] += r.get(k, 0)
         agg["solver_time"] += r.get("solver_time", 0)
         for g, n in r.get("gaps", {}).items():
@@ -348,7 +399,8 @@ def finish(pid, tier, seed, mod, results, t0, extra_cov=None):
             known_hit[k["id"]] = (k, known_hit[k["id"]][1] + 1)
         else:
             violations.append(c)
-    outdir = os.path.join(VERIF, "out", "replays", pid)
+    scratch = os.environ.get("PVERIF_SCRATCH")  # mutant runs: keep replays and evidence away from the committed ones
+    outdir = os.path.join(scratch or os.path.join(VERIF, "out"), "replays", pid)
     os.makedirs(outdir, exist_ok=True)
     for f in os.listdir(outdir):
         os.remove(os.path.join(outdir, f))
@@ -374,6 +426,7 @@ def finish(pid, tier, seed, mod, results, t0, extra_cov=None):
         counterexamples_confirmed=len([c for c in cex_all if c["confirmed"]]), counterexamples_known=sum(n for _, n in known_hit.values()),
         counterexamples_unlisted=len(violations), counterexamples_not_reproduced=len(unconfirmed),
         known_findings_hit=sorted(known_hit), model_gap_paths=sum(gaps.values()), model_gap_reasons=dict(gaps.most_common(12)),
+        model_gap_concrete_probes=agg["gap_probes"], model_gap_probe_counterexamples=agg["gap_probe_cex"],
         shim_real_mismatches=len(mism), truncated_templates=truncated, fatal_templates=[f[0] for f in fatal],
         solver_queries=agg["queries"], solver_time_s=round(agg["solver_time"], 2),
         functions_encoded=getattr(mod, "FUNCTIONS_ENCODED", []), bounds=getattr(mod, "BOUNDS", {}).get(tier, getattr(mod, "BOUNDS", {})),
@@ -385,8 +438,9 @@ def finish(pid, tier, seed, mod, results, t0, extra_cov=None):
         cov.update(extra_cov)
     ev = dict(property_id=pid, tier=tier, seed=seed, level="model_checking", coverage=cov,
               assumptions=list(getattr(mod, "ASSUMPTIONS", [])), wall_s=round(time.time() - t0, 2), violations=len(violations))
-    os.makedirs(os.path.join(VERIF, "evidence"), exist_ok=True)
-    json.dump(ev, open(os.path.join(VERIF, "evidence", f"{pid}.json"), "w"), indent=1, default=str)
+    evdir = os.path.join(scratch, "evidence") if scratch else os.path.join(VERIF, "evidence")
+    os.makedirs(evdir, exist_ok=True)
+    json.dump(ev, open(os.path.join(evdir, f"{pid}.json"), "w"), indent=1, default=str)
     for l in lines:
         print(l)
     print(f"[{pid} {tier}] templates={len(results)} paths={agg['paths']} returned={agg['ret_paths']} replayed_ok={agg['replayed_ok']} "
